@@ -9,6 +9,7 @@ package c17t
 import (
 	"context"
 	"encoding/base64"
+	"encoding/json"
 	"strings"
 	"testing"
 
@@ -268,6 +269,95 @@ func (t *target) HMACVerify(mac string, msg []byte) (bool, string) {
 	}
 	v, _ := d["valid"].(bool)
 	return v, ""
+}
+
+// Batch sends one batch_input request to encrypt/, decrypt/ or rewrap/ and returns the per-item results.
+func (t *target) Batch(kind string, items []c17core.BatchItem) (rs []c17core.BatchResult, whole string) {
+	defer func() {
+		if r := recover(); r != nil {
+			rs, whole = nil, "PANIC"
+		}
+	}()
+	in := make([]any, len(items))
+	for i, it := range items {
+		m := map[string]any{}
+		if len(it.Ctx) > 0 {
+			m["context"] = b64(it.Ctx)
+		}
+		switch kind {
+		case "encrypt":
+			m["plaintext"] = b64(it.Plain)
+			m["key_version"] = it.Ver
+			if len(it.Aad) > 0 {
+				m["associated_data"] = b64(it.Aad)
+			}
+		case "decrypt":
+			m["ciphertext"] = it.Ct
+			if len(it.Aad) > 0 {
+				m["associated_data"] = b64(it.Aad)
+			}
+		case "rewrap":
+			m["ciphertext"] = it.Ct
+			m["key_version"] = it.Ver
+		}
+		in[i] = m
+	}
+	resp, err := t.b.HandleRequest(t.ctx, &logical.Request{Operation: logical.UpdateOperation, Path: kind + "/" + t.name,
+		Data: map[string]any{"batch_input": in}, Storage: t.st})
+	if resp != nil && resp.IsError() {
+		return nil, c17core.Classify(resp.Error().Error())
+	}
+	if err != nil {
+		return nil, c17core.Classify(err.Error())
+	}
+	if resp == nil {
+		return nil, "other(nil response)"
+	}
+	// a batch with failing items is answered through RespondWithStatusCode: the logical response is JSON in http_raw_body
+	var raw any = resp.Data["batch_results"]
+	if body, ok := resp.Data[logical.HTTPRawBody]; ok {
+		var env struct {
+			Data map[string]any `json:"data"`
+		}
+		var bs []byte
+		switch x := body.(type) {
+		case string:
+			bs = []byte(x)
+		case []byte:
+			bs = x
+		}
+		if err := json.Unmarshal(bs, &env); err != nil {
+			return nil, "other(undecodable http_raw_body)"
+		}
+		raw = env.Data["batch_results"]
+	}
+	enc, err := json.Marshal(raw)
+	if err != nil {
+		return nil, "other(unencodable batch_results)"
+	}
+	var list []map[string]any
+	if err := json.Unmarshal(enc, &list); err != nil {
+		return nil, "other(undecodable batch_results)"
+	}
+	rs = make([]c17core.BatchResult, len(list))
+	for i, m := range list {
+		if e, _ := m["error"].(string); e != "" {
+			rs[i].Cls = c17core.Classify(e)
+			continue
+		}
+		if kind == "decrypt" {
+			pt, _ := m["plaintext"].(string)
+			rawPt, err := base64.StdEncoding.DecodeString(pt)
+			if err != nil {
+				rs[i].Cls = "other(plaintext not base64)"
+				continue
+			}
+			rs[i].Text = string(rawPt)
+		} else {
+			rs[i].Text, _ = m["ciphertext"].(string)
+		}
+	}
+	return rs, ""
 }
 
 func TestVerifC17Endpoints(t *testing.T) {
